@@ -23,6 +23,8 @@ CHECKS = {
             "Singles for all fault kinds, pairs (k, j <= 12) for roll-back paths, per sampled cell; plus fault storms for depth of state."),
     "C07": ("exploration", "4.C07", T_STORM + "; expected get_allocator() identity from the propagation traits after every construction/assignment/swap; allocation traffic must use a participant's allocator",
             "Seeded search over 8 propagation combinations x {NM,TM}, always-equal variants, SOCCC identity/toggling, equal/unequal instances. For always-equal allocators identity is not demanded (all instances compare equal)."),
+    "C08": ("exploration", "4.C08", "deterministic simulation replayed in a second executor: seeded operation histories over two/three containers are evaluated by the compiler's constant evaluator (constexpr variables, g++ and clang++) and by the same interpreter at run time; any 'not a constant expression' diagnostic (UB, out-of-lifetime access, unreleased allocation) is a violation, and the per-step observation hashes (sizes, values, return values, comparable capacities) must agree",
+            "No fault dimension (constant evaluation cannot throw). capacity() is compared only while comparable (excluded from a move/swap until the next shrink_to_fit), inlined() never. Trusts the compilers' constant evaluators as UB detectors."),
     "C09": ("exploration", "4.C09", T_STORM + "; steal oracle: destination data() == source's old data(), same element serials, zero element events on the transferred buffer, stolen-from source empty and inlined",
             "Steal is demanded exactly when the property permits it; stealing more is allowed."),
     "C10": ("exploration", "4.C10", T_STORM + "; capacity()/data() stability and zero mutating element events on the untouched prefix for growing calls that fit; reserve no-op/at-least rules; at most one allocation for sized growth",
@@ -46,7 +48,6 @@ CHECKS = {
 }
 
 NOT_APPLICABLE = [
-    {"property_id": "C08", "reason": "check under construction in this session (constexpr replay executor); will be claimed when committed"},
     {"property_id": "C19", "reason": "compile-time layout constants (sizeof/alignof/default_buffer_size): nothing executes, so there is no history, fault or seam for a simulation to drive; deciding it is static_assert enumeration, a different technique"},
     {"property_id": "C20", "reason": "subject is GDB/natvis scripts inspecting a stopped process from outside; no fault, schedule or history inside the simulated process decides it, and natvis cannot run here"},
 ]
